@@ -435,7 +435,7 @@ def _strp_walk(prog, text, cache={}):
 
 def r18_8(prog, rep, rid="R18.8"):
     """The duration reader looks at its input through comparisons with a dozen constants (digit test, sign and designator letters).  It
-    is walked over every spelling  [+|-] P [nW] [nD] [T [nH] [nM] [nS]]  with each count absent, 0 or 12 (726 spellings): each must
+    is walked over every spelling  [+|-] P [nW] [nD] [T [nH] [nM] [nS]]  with each count absent, 0 or 12 (726 spellings), plus 12 spellings with one component far beyond its usual range: each must
     read as (7W + D) days + H:M:S in milliseconds with the sign applied — so equivalent spellings (explicit zero components, a leading
     plus sign, weeks against days) read alike, every designator is read behind its T, and the multipliers are those of the units."""
     import itertools
@@ -457,6 +457,14 @@ def r18_8(prog, rep, rid="R18.8"):
             n += 1
             if got != want:
                 bad.append((t, got, want))
+    # what echsd writes for a limit is seconds only (`DURATION:PT172800S` for two days): single components well beyond their usual range
+    for t, want in (("PT86400S", 86400000), ("PT86401S", 86401000), ("PT172800S", 172800000), ("PT604800S", 604800000),
+                    ("PT31536000S", 31536000000), ("PT1440M", 86400000), ("PT100000M", 6000000000), ("PT48H", 172800000),
+                    ("PT1000H", 3600000000), ("P400D", 34560000000), ("P60W", 36288000000), ("-PT172800S", -172800000)):
+        got = _strp_walk(prog, t)
+        n += 1
+        if got != want:
+            bad.append((t, got, want))
     key = "idiff_strp/spellings-read-as-their-value"
     if bad:
         bad.sort(key=lambda b_: (len(b_[0]), b_[0]))
